@@ -13,7 +13,7 @@ Fixpoint set_nth {A} (n : nat) (a : A) (l : list A) : list A :=
 Fixpoint reshape {A} (n v : nat) (l : list A) : list (list A) :=
   match n with O => [] | S k => firstn v l :: reshape k v (skipn v l) end.
 
-Fixpoint map_M {T A B} (f : A -> M T B) (l : list A) : M T (list B) :=
+Fixpoint map_M {E A B} (f : A -> SM E B) (l : list A) : SM E (list B) :=
   match l with
   | [] => ret []
   | a :: t => b <- f a ;; bs <- map_M f t ;; ret (b :: bs)
@@ -40,7 +40,7 @@ Proof.
   apply IH. lia.
 Qed.
 
-Lemma map_M_ok {T A B} (f : A -> M T B) l : forall s bs s',
+Lemma map_M_ok {E A B} (f : A -> SM E B) l : forall s bs s',
   map_M f l s = Ok (bs, s') ->
   Forall2 (fun a b => exists s1 s2, f a s1 = Ok (b, s2)) l bs.
 Proof.
@@ -145,3 +145,12 @@ Proof.
   - apply (H 0); reflexivity.
   - apply IH; try lia. intros k x' y' z' Ha Hb Hc. apply (H (S k)); assumption.
 Qed.
+
+Fixpoint all_some {A} (l : list (option A)) : option (list A) :=
+  match l with
+  | [] => Some []
+  | Some a :: t => option_map (cons a) (all_some t)
+  | None :: _ => None
+  end.
+(* fancy indexing l[idx]; an index out of range gives None (IndexError) *)
+Definition pick {A} (l : list A) (idx : list nat) : option (list A) := all_some (map (nth_error l) idx).
